@@ -492,7 +492,7 @@ class ConfigNode(metaclass=ConfigNodeMeta):
                 other.extend(self)
             else:
                 other.update(self)
-            other.__dict__.update(self.__dict__)
+            other._take_over_state(self)
             return other
         elif issubclass(type(self), type(other)): # complex dict/list replaces simple dict/list, leave as is
             return self
@@ -502,12 +502,23 @@ class ConfigNode(metaclass=ConfigNodeMeta):
                 other.extend(self.values())
             else:
                 other.update(enumerate(self))
-            other.__dict__.update(self.__dict__)
+            other._take_over_state(self)
             return other
         elif not self._is_plain_composed() and other._is_plain_composed(): # complex dict/list replaces simple list/dict, leave as is
             return self
         else: # any other case, silently give up
             return self
+
+    def _take_over_state(self, source):
+        ''' Used when "self" is promoted to be the result of a merge in place of "source":
+            "self" takes over the state of "source", but merging can only spread unsafety -
+            the promoted node never ends up safer than it, or "source", was (the flags which
+            made it unsafe might have been inherited ones, which "source" does not carry).
+        '''
+        unsafe = not self.ayns.safe or not source.ayns.safe
+        self.__dict__.update(source.__dict__)
+        if unsafe and self.ayns.safe:
+            self._safe = False
 
     @classmethod
     def _is_composed(cls):
